@@ -60,7 +60,7 @@ class World:
     required_probes = ["save_inside_basis_context_transformed", "load_inside_basis_context", "save_inside_units_context",
                        "load_inside_units_context", "save_and_load_in_different_contexts", "fileobject_parcel", "path_parcel",
                        "scopy", "savedir_loaddir", "export_with_axis", "export_complex", "export_2d", "failed_write_then_good_save",
-                       "nested_basis_and_units", "fault_unwinds", "format:.txt", "format:.npy", "format:.npz", "format:.mat", "format:.dat"]
+                       "nested_basis_and_units", "fault_unwinds", "large_file_rewritten", "format:.txt", "format:.npy", "format:.npz", "format:.mat", "format:.dat"]
     required_faults = ["write_ENOSPC", "F1_simfault"]
     components = {
         "real": ["Saveable.save/load/scopy/savedir/loaddir", "Parcel / load_parcel (dill)", "DataSaveable.save_data/load_data, "
@@ -117,7 +117,7 @@ class World:
             elif k == "export":
                 ops.append({"op": "export", "src": rng.choice(["dfun", "dfun", "abs", "oper", "twod"]), "fmt": rng.randrange(len(FORMATS)),
                             "cplx": rng.random() < 0.5, "twod": rng.random() < 0.4, "axis": rng.random() < 0.5,
-                            "pay": rng.randrange(1 << 30)})
+                            "pay": rng.randrange(1 << 30), "big": rng.random() < 0.06})
         return {"classes": classes, "seed": rng.randrange(1 << 30), "ops": ops}
 
     def fault_variants(self, base, rng):
@@ -670,6 +670,9 @@ class Runner:
             b.set_resolution("off")
             b.set_data_flag("total_2D_signal")
         else:
+            if op.get("big"):
+                n = 70000          # more than 1 MiB of complex data: large-file code paths
+                cplx = True
             ta = qr.TimeAxis(1.0, n, 0.5)
             shape = (n, 3) if twod else (n,)
             y = g.uniform(-1, 1, size=shape)
@@ -716,6 +719,22 @@ class Runner:
             check(close(ax, numpy.array(axis_a.data), rtol=1e-14, scale=max(1.0, float(numpy.max(numpy.abs(axis_a.data))))),
                   "imported-axis-equals-exported", lambda: "%s: axis %s" % (what, maxdiff(ax, numpy.array(axis_a.data))))
             self.ctx.probe("export_with_axis")
+        if op.get("big") and src == "dfun":
+            # the file is written again with other content: what was imported before must not change
+            a.data = numpy.array(a.data) * 2.0 + 1.0
+            try:
+                if with_axis:
+                    a.save_data(path, with_axis=axis_a)
+                else:
+                    a.save_data(path)
+            except Exception as e:
+                raise Violation("export-raises", "%s (second export to the same file): %s: %s" % (what, type(e).__name__, e))
+            again = numpy.array(b.data)
+            if fmt == ".mat" and not twod:
+                again = again.reshape(-1)
+            check(again.shape == y.shape and close(again.astype(complex), y.astype(complex), rtol=1e-14, scale=1.0),
+                  "imported-data-follow-the-file", lambda: "%s: data imported earlier changed when the file was written again" % what)
+            self.ctx.probe("large_file_rewritten")
         if cplx:
             self.ctx.probe("export_complex")
         if twod:
